@@ -124,8 +124,9 @@ def harness_cmd(ob, fs, playback=False):
         cmd += ["-Z", "concrete-playback", "--concrete-playback=print"]
     if ob.extra:
         cmd += ob.extra.split()
+    cmd += ["--cbmc-args", "--max-field-sensitivity-array-size", str(ob.fs)]
     if ob.unwindset:
-        cmd += ["--cbmc-args", "--unwindset", ob.unwindset]
+        cmd += ["--unwindset", ob.unwindset]
     return cmd
 
 
@@ -261,7 +262,7 @@ def run_batch(scratch, obs, fs, jobs, log_dir, mem_gb=7.0):
     for o in obs:
         cmd += ["--harness", o.harness_path()]
     cmd += ["--exact", "-j", str(max(1, min(jobs, len(obs)))), "--output-format", "terse",
-            "--harness-timeout", "%ds" % tmo]
+            "--harness-timeout", "%ds" % tmo, "--cbmc-args", "--max-field-sensitivity-array-size", str(obs[0].fs)]
     t0 = time.time()
     rc, out, secs, to = run(cmd, cwd=scratch, env=offline_env(), timeout=tmo * (2 + len(obs) // max(1, jobs)) + 600,
                             mem_gb=mem_gb)
